@@ -25,6 +25,8 @@ type Scenario struct {
 	Preload []PreCur `json:"preload,omitempty"`
 	// Real: real jrpc2.Client + HTTP simnode instead of the scripted Source
 	Real bool `json:"real,omitempty"`
+	// DBRows: integrations saved in shovel.integrations instead of the configuration file
+	DBRows []DBRow `json:"db_rows,omitempty"`
 }
 
 // PreCur is a recorded position that exists before the case starts; its hash
@@ -38,6 +40,7 @@ type PreCur struct {
 // Act is one action of a script.
 //
 //	step     run one Converge of task Tid to completion
+//	stepall  one whole step of every loaded task, in id order (not in interleaved mode)
 //	adv      (interleaved mode) let task Tid run to its next database statement / end of step
 //	advuntil (interleaved mode) advance task Tid until it has executed the operation named Call (K more times), or its step ends
 //	drain    (interleaved mode) finish every step in flight
@@ -110,7 +113,7 @@ func (sc *Scenario) Exec() (*Run, error) {
 		o.AddrBase = i * 20_000_000
 		hist[s.Name] = NewHistory(rng.Fork(), sc.Head, o)
 	}
-	w, err := NewWorld(WorldSpec{Srcs: sc.Srcs, IGs: sc.IGs, Hist: hist, Real: sc.Real})
+	w, err := NewWorld(WorldSpec{Srcs: sc.Srcs, IGs: sc.IGs, Hist: hist, Real: sc.Real, DBRows: sc.DBRows})
 	if err != nil {
 		return nil, err
 	}
@@ -252,6 +255,13 @@ func (sc *Scenario) Exec() (*Run, error) {
 			}
 			if err := afterStep(w.Step(a.Tid)); err != nil {
 				return fail(err)
+			}
+		case "stepall":
+			// one step of every task loadTasks built, in id order
+			for _, t := range append([]*TaskH{}, w.Tasks...) {
+				if err := afterStep(w.Step(t.ID)); err != nil {
+					return fail(err)
+				}
 			}
 		case "adv":
 			if sched == nil {
